@@ -121,6 +121,8 @@ pub fn miss_signature(it: &Item, tree_err: bool) -> String {
         "wildcard_parent_with_anchored_children"
     } else if any_node(it, &|k, ch, al| matches!(k, query::Kind::Error) && (al || ch.iter().any(|c| c.anchor))) {
         "error_parent_with_anchored_children"
+    } else if any_node(it, &|k, ch, _| matches!(k, query::Kind::Error) && !ch.is_empty()) {
+        "error_pattern_with_children"
     } else if tree_err {
         "erroneous_tree"
     } else {
@@ -131,6 +133,12 @@ pub fn miss_signature(it: &Item, tree_err: bool) -> String {
     } else {
         format!("C05:completeness:missing:{s}")
     }
+}
+
+/// a wildcard child that the next sibling (or the end of the parent) is anchored to
+pub fn wildcard_child_before_anchor(it: &Item) -> bool {
+    let is_wild = |c: &query::Child| matches!(&c.item.pat, query::Pat::Node { kind: query::Kind::Wild | query::Kind::WildNamed | query::Kind::Super(_, None), .. });
+    any_node(it, &|_, ch, al| (0..ch.len()).any(|j| is_wild(&ch[j]) && ((j + 1 < ch.len() && ch[j + 1].anchor) || (j + 1 == ch.len() && al))))
 }
 
 fn has_bare_supertype(it: &Item) -> bool {
@@ -268,7 +276,12 @@ impl Check for C05 {
                             let mut f = BTreeSet::new();
                             query::item_features(it, &mut f);
                             ctx.fail(
-                                if mentions_kind(it, &lang.meta_strs("extras_named")) {
+                                if mentions_kind(it, &lang.meta_strs("extras_named")) || {
+                                    // ... or matches only because a wildcard binds an extra
+                                    let mut m2 = crate::model::qmatch::Matcher::new(&xt, lang, 20_000);
+                                    m2.skip_extras = true;
+                                    m2.match_all(it).is_empty()
+                                } {
                                     "C05:compile:rejected_matchable:extra_child"
                                 } else if f.contains("q:alternation") || f.contains("q:quantifier") {
                                     "C05:compile:rejected_matchable:dead_alternative_or_optional"
